@@ -539,6 +539,99 @@ class GradLogPdf(Contract):
         return dict(point=self.point)
 
 
+# ====================================================================================== __init__: the threshold the user gave
+MINVAL = z3.Real('gp_mean_minimum')
+
+
+def sibling_methods(vc, cls_qual, path, skip):
+    """every other method of the class, as the REAL function inlined from the tree under analysis (pyvc.engine.inline): a constructor that
+    delegates to a helper method of its class stays in the subset; a method the front end cannot instrument is left out (calling it is then
+    an engine limit -> undecided, fail closed)"""
+    import ast
+    from pyvc import instrument
+    from pyvc.engine import inline
+    src, tree = instrument._parse(path, vc.repo)
+    out = {}
+    for n in tree.body:
+        if isinstance(n, ast.ClassDef) and n.name == cls_qual:
+            for f in n.body:
+                if isinstance(f, ast.FunctionDef) and f.name not in skip and not f.decorator_list:
+                    try:
+                        out[f.name] = inline(vc, '%s::%s.%s' % (path, cls_qual, f.name))
+                    except OutOfSubset:
+                        pass
+    return out
+
+
+class _NoopBase:
+    def __init__(self, *a, **kw):
+        pass
+
+
+class PosteriorInit(Contract):
+    """BolfiPosterior.__init__: self.threshold is the threshold the caller gave, for EVERY given value (0 included); the minimum of the GP
+    mean (elfi.methods.bo.utils.minimize, a recording stub) is used iff threshold is None"""
+    target = POST + '__init__'
+    prop = 'C10'
+    fin = 3
+
+    def __init__(self, form):
+        self.form = form            # real | int-0 | float-0.0 | none
+        self.label = 'threshold ' + form
+
+    def env(self, vc):
+        s = self._s
+        rnd = type('random', (), {'RandomState': staticmethod(lambda seed=None: s.rs)})
+
+        def minimize(fun, bounds, *a, **kw):
+            s.min_calls.append(dict(fun=fun, bounds=bounds, args=a, kw=kw))
+            return make_object('MinLocStub'), SReal(MINVAL)
+        return {'np': npspec.module(extra={'random': rnd}), 'minimize': minimize, 'super': lambda *a: _NoopBase(), 'BolfiPosterior': object}
+
+    def setup(self, vc):
+        h = z3.Real('threshold')
+        s = NS(h=h, min_calls=[], rs=make_object('RandomStateStub'))
+        self._s = s
+        s.given = {'real': SReal(h), 'int-0': 0, 'float-0.0': 0.0, 'none': None}[self.form]
+        s.model = make_object('SurrogateStub', attrs=dict(input_dim=SInt(z3.Int('dim')), bounds=make_object('BoundsStub'),
+                                                           predict_mean=make_object('PredictMeanStub'), predictive_gradient_mean=make_object('GradMeanStub')))
+        s.prior = make_object('PriorStub')
+        methods = sibling_methods(vc, 'BolfiPosterior', 'elfi/methods/posteriors.py', skip=('__init__',))
+        methods['_vc_super'] = lambda self_: _NoopBase()
+        s.self = make_object('BolfiPosteriorStub', methods=methods)
+        s.n_inits, s.iters = SInt(z3.Int('n_inits')), SInt(z3.Int('max_opt_iters'))
+        return s, (s.self, s.model), dict(threshold=s.given, prior=s.prior, n_inits=s.n_inits, max_opt_iters=s.iters, seed=SInt(z3.Int('seed')))
+
+    def ensures(self, s, result):
+        o = s.self
+        if not all(hasattr(o, f) for f in ('threshold', 'model', 'prior', 'dim')):
+            return [('threshold, model, prior and dim are set', z3.BoolVal(False))]
+        out = [('model and prior are the given objects, dim is the surrogate\'s input dimension',
+                z3.And(z3.BoolVal(o.model is s.model and o.prior is s.prior), lift(o.dim).t == z3.Int('dim')))]
+        th = o.threshold
+        if self.form == 'none':
+            ok = len(s.min_calls) == 1
+            if ok:
+                c = s.min_calls[0]
+                ok = c['fun'] is s.model.predict_mean and c['bounds'] is s.model.bounds and not c['args'] and c['kw'].get('grad') is s.model.predictive_gradient_mean and \
+                    c['kw'].get('prior') is s.prior and c['kw'].get('n_start_points') is s.n_inits and c['kw'].get('maxiter') is s.iters and c['kw'].get('random_state') is s.rs
+            out.append(('no threshold given: the GP mean is minimised once over the surrogate\'s bounds (its gradient, the prior, n_inits starts, max_opt_iters)', z3.BoolVal(ok)))
+            out.append(('no threshold given: the threshold is the minimum found', lift(th).t == MINVAL if th is not None else z3.BoolVal(False)))
+            return out
+        want = s.h if self.form == 'real' else z3.RealVal(0)
+        if th is None or isinstance(th, bool):
+            return out + [('the threshold is the one the caller gave', z3.BoolVal(False))]
+        t = lift(th).t
+        t = z3.ToReal(t) if t.sort() == I else t
+        out.append(('the threshold is the one the caller gave (every value, 0 included)', t == want))
+        out.append(('a given threshold is never replaced by an optimisation of the GP mean', z3.BoolVal(len(s.min_calls) == 0)))
+        return out
+
+    def witness(self, vc, model, ob):
+        return dict(form=self.form, threshold=str(model.eval(z3.Real('threshold'), model_completion=True)))
+
+
 CONTRACTS = [WithinBounds()] + [UnnormLogLik(c) for c in CASES] + [LogPdf(True), LogPdf(False), Pdf(True), Pdf(False),
                                                                        Pdf(True, '_unnormalized_likelihood', '_unnormalized_loglikelihood'), Pdf(False, '_unnormalized_likelihood', '_unnormalized_loglikelihood'),
-                                                                       GradLogPdf(True), GradLogPdf(False)]
+                                                                       GradLogPdf(True), GradLogPdf(False)] + \
+    [PosteriorInit(f) for f in ('real', 'int-0', 'float-0.0', 'none')]
